@@ -2,7 +2,7 @@ SPECIFICATION Spec
 CONSTANTS
   N = 3
   Refs = {"a", "b"}
-  MaxDepth = 5
+  MaxDepth = 6
   MaxPacks = 2
   WithCopies = TRUE
   WithIdx = FALSE
@@ -10,13 +10,10 @@ CONSTANTS
   CgChecksStore = TRUE
   CgWriterCloses = TRUE
   BitmapChecksum = TRUE
-  BitmapClosedPack = TRUE
+  BitmapClosedPack = FALSE
   BitmapExcludeExact = TRUE
   ProvidersAgree = TRUE
   DeleteDropsPacked = TRUE
 INVARIANT TypeOK
 INVARIANT Transparent
-INVARIANT Exact
-INVARIANT RefsTransparent
-INVARIANT StaleRejected
 CHECK_DEADLOCK FALSE
